@@ -397,3 +397,22 @@ func verifCanary(label string, cond bool) {}
 //@   assigns map(sb.s), held(&sb.mu), released(&sb.mu)
 //@   ensures [C35:closed] !in(ua.nodeStr(authToken), sb.s)
 //@   ensures [C35:others-kept] forall k string :: { in(k, sb.s) } k != ua.nodeStr(authToken) ==> in(k, sb.s) == old(in(k, sb.s)) && sb.s[k] == old(sb.s[k])
+
+// ActivateSession: an unknown token is refused, and on a secured channel a session is activated only
+// after the client's signature verified (uasc.VerifySessionSignature, C22) with the certificate stored
+// for that session -- whether or not a logger is configured.
+//@ func (*SessionService).ActivateSession
+//@   props C35 C29
+//@   requires s != nil && s.srv != nil && s.srv.cfg != nil && s.srv.sb != nil && sc != nil && sc.cfg != nil
+//@   requires [arg] typeis(r, *ua.ActivateSessionRequest) ==> dyn(r, *ua.ActivateSessionRequest) != nil &&
+//@            dyn(r, *ua.ActivateSessionRequest).RequestHeader != nil && dyn(r, *ua.ActivateSessionRequest).RequestHeader.AuthenticationToken != nil &&
+//@            dyn(r, *ua.ActivateSessionRequest).ClientSignature != nil
+//@   let tok = dyn(r, *ua.ActivateSessionRequest).RequestHeader.AuthenticationToken
+//@   let sess = s.srv.sb.s[ua.nodeStr(tok)]
+//@   let cert = sess.remoteCertificate
+//@   let sig = dyn(r, *ua.ActivateSessionRequest).ClientSignature.Signature
+//@   assigns *
+//@   after "ua.NewExtensionObject(nil)" assigns nothing
+//@   ensures [C35:unknown-token-refused] typeis(r, *ua.ActivateSessionRequest) && !in(ua.nodeStr(tok), s.srv.sb.s) ==> err != nil && result0 == nil
+//@   ensures [C35:activation-verified] err == nil && sc.cfg.SecurityMode != ua.MessageSecurityModeNone ==> uasc.sessionSigKeyOK(cert, sig)
+//@   canary ensures [C35:canary-always-activates] err == nil
